@@ -356,10 +356,15 @@ func (pc *ProviderCache) Refresh(ctx context.Context) error {
 				delete(pc.write, pid)
 				// Store nil in updates to override anything in main map.
 				updates[pid] = nil
+				continue
 			}
-		} else if cinfo.updateSeq > pc.pubSeq {
+		}
+		if cinfo.updateSeq > pc.pubSeq {
 			// Address updated, in this refresh or in an earlier one that was
-			// canceled before publishing, update read-only data.
+			// canceled before publishing, update read-only data. This applies
+			// also to a provider not seen in this refresh: if it is not
+			// published now, then seeing the same record again later will not
+			// publish it either.
 			updates[pid] = apiToCacheInfo(cinfo.provider)
 		}
 	}
